@@ -608,7 +608,13 @@ class Impl:
                 with open(p, "rb") as fh:
                     H = rd(fh, directed=G.is_directed(), nodetype=nt, timestamptype=int, encoding=en, **(rdk if rdk is not None else {"delimiter": d}), **cmk)
             else:
-                wr(G, p, delimiter=d, encoding=en)
+                # positional and keyword spellings of (G, path)
+                if len(G._node) % 3 == 0:
+                    wr(G=G, path=p, delimiter=d, encoding=en)
+                elif len(G._node) % 3 == 1:
+                    wr(G, path=p, delimiter=d, encoding=en)
+                else:
+                    wr(G, p, delimiter=d, encoding=en)
                 raw = {0: lambda: open(p, "rb").read(), 1: lambda: gzip.open(p).read(), 2: lambda: bz2.open(p).read()}[target]()
                 H = rd(p, directed=G.is_directed(), nodetype=nt, timestamptype=int, encoding=en, **(rdk if rdk is not None else {"delimiter": d}), **cmk)
         finally:
